@@ -485,6 +485,8 @@ func c19Run(args [][]string) []string {
 		return c19RunTrace(args)
 	case 8: // several saves of several users in one process, some refused half-way: c19seq.go
 		return c19RunSeq(args)
+	case 10: // saves of different users by several goroutines of the process at once: c19conc.go
+		return c19RunConc(args)
 	case 6: // arbitrary bytes as .fav4 (no .fav) -> Load converts; only crash/no crash is observed
 		c19Clean(false)
 		must(os.WriteFile(filepath.Join(c19UserDir, fav.FAV4), ab(args[1]), 0o644))
